@@ -8,6 +8,14 @@ NOTES = ("Model-based verification with explicit TLA+ specifications (specs/). E
 NOT_APPLICABLE = {}
 TRUST = "TLC and the Json community module; the renderer/tokeniser glue in lib/pp.py; the hook lines in /repo; bounded universes as stated in the evidence file"
 CHECKS = {
+ "C11": {"level": "model_checking", "design_ref": "DESIGN.md 4.2, 5 (C11), Appendix A.12-A.13",
+         "technique": "TLA+ spec Preproc: ConcatEquiv model-checked with TLC over all pairs of programs of a mixed universe, returned table = declarative DefsRef over all conditional programs; TLC-exported and seeded file pairs/triples run file-by-file (table threaded through the harness) and concatenated in the real preprocessor; relation and tables validated by TLC (Preproc_Trace)",
+         "text": "The define table returned by the real preprocessor is compared entry by entry (formals, default texts, body text, caller-supplied and value-less entries, SV_COV_* aside) with the table the specification computes, and feeding it into the run of the next file is compared with preprocessing the concatenation: same tokens, same final table, same error; the same relation is model-checked for every pair of model programs up to the bound.",
+         "note": TRUST},
+ "C18": {"level": "model_checking", "design_ref": "DESIGN.md 4.2, 5 (C18)",
+         "technique": "TLA+ spec Preproc: StripOnlyComments/NoCommentLeft model-checked with TLC over all pairs of programs with comments in every position; exported and seeded programs run with strip_comments off and on in the real preprocessor; both runs and their relation validated by TLC (Preproc_Trace)",
+         "text": "For every model program pair the stripped and unstripped runs of the specification agree on non-comment tokens, table and error and the stripped output has no comment; for the real library the same relation is checked on the two observed runs, and each run is also compared with the specification run carrying the flag, so flag threading through includes and expansions and comments that are the only separator between tokens are covered.",
+         "note": TRUST},
  "C10": {"level": "model_checking", "design_ref": "DESIGN.md 4.2, 5 (C10), Appendix A.8-A.10",
          "technique": "TLA+ spec Preproc with a file-system model, model-checked with TLC against a big-step reference with declarative IEEE 22.4 resolution; TLC-exported file-system configurations and include graphs materialised on disk and run through the real preprocessor; traces validated by TLC (Preproc_Trace)",
          "text": "For every presence pattern of the target in {cwd,d1,d2} x every include-path order x ignore_include, and every include graph of the bound, the machine equals the reference in the model and the real library equals the machine on disk: file chosen (origin file of the spliced tokens), tokens, defines flowing in and out, Include{File{path}}, ReadUtf8 behind include levels, IncludeLine for 17 line placements, both quoting styles, macro-named files, same file twice, fan-out.",
